@@ -312,9 +312,10 @@ TMAX = 48
 def fam_pos(prop, tier):
     out = []
     if tier == "quick":
-        profs = profiles([1, 2, 3], 2) + [(1, 3, 2), (3, 1, 2), (2, 3, 1), (1, 2, 3), (3, 2, 3), (1, 2, 2, 1), (2, 1, 2, 2)]
+        # (3,1) (1,3) (1,3,1) (4,1,2): a non-final step in which exactly ONE branch is still running
+        profs = profiles([1, 2, 3], 2) + [(1, 3, 2), (3, 1, 2), (2, 3, 1), (1, 2, 3), (3, 2, 3), (1, 2, 2, 1), (2, 1, 2, 2), (3, 1), (1, 3), (1, 3, 1), (4, 1, 2)]
     else:
-        profs = profiles([1, 2, 3], 3) + profiles([4], 2) + [(1, 3, 2, 3), (3, 1, 2, 2), (2, 2, 1, 3), (1, 3, 1, 2)]
+        profs = profiles([1, 2, 3], 3) + profiles([4], 2) + [(1, 3, 2, 3), (3, 1, 2, 2), (2, 2, 1, 3), (1, 3, 1, 2), (4, 1, 2), (1, 4, 2), (4, 1), (1, 4)]
     variants = [("join", "plain"), ("try_join", "plain"), ("join", "then"), ("try_join", "map"), ("try_join", "and_then"),
                 ("join", "let"), ("try_join", "let"), ("join_async", "plain"), ("try_join_async", "plain"),
                 ("join_async", "then"), ("try_join_async", "map")]
